@@ -321,12 +321,12 @@ func (srv *server) lockDuplicatedID(c *client) (oldSession *gmqtt.Session, err e
 		if oldSession != nil {
 			var oldClient *client
 			oldClient = srv.clients[oldSession.ClientID]
-			srv.mu.Unlock()
-			verifGate(srv, "takeover.unlocked", "cid", c.opts.ClientID, "conn", verifConn(c), "old", verifConn(oldClient))
 			if oldClient == nil {
-				srv.mu.Lock()
+				// nobody is online with this client id: keep holding the lock until the new client is registered
 				break
 			}
+			srv.mu.Unlock()
+			verifGate(srv, "takeover.unlocked", "cid", c.opts.ClientID, "conn", verifConn(c), "old", verifConn(oldClient))
 			// if there is a duplicated online client, close if first.
 			zaplog.Info("logging with duplicate ClientID",
 				zap.String("remote", c.rwc.RemoteAddr().String()),
